@@ -222,13 +222,11 @@ fn run_cover(ctx: &Ctx, rep: &mut Report, indexed: bool, rng: &mut Rng) {
         *TRACE.lock().unwrap() = Some(vec![]);
         let mut failed = None;
         for s in &u.stmts { match dbh.exec(s) { Out::Err(e) => { failed = Some(format!("{s}: {e}")); break; } Out::Panic(p) => { failed = Some(format!("{s}: panic {p}")); break; } _ => {} } }
+        // the page writes and dirty marks of a failed unit (and of its ROLLBACK) still happened: the model sees them
+        // too; only the content oracle is skipped for such a unit
+        let unit_failed = failed.is_some();
+        if unit_failed { rep.count("cover:unit-statement-failed"); let _ = dbh.exec("ROLLBACK"); }
         let evs = TRACE.lock().unwrap().take().unwrap_or_default();
-        if let Some(f) = failed {
-            rep.count("cover:unit-statement-failed");
-            let _ = dbh.exec("ROLLBACK");
-            let _ = f;
-            continue;
-        }
         rep.case(Some(&case));
         rep.count(&format!("cover:unit:{}", u.name));
         let post = page_hashes(&dbh.dir);
@@ -271,6 +269,7 @@ fn run_cover(ctx: &Ctx, rep: &mut Report, indexed: bool, rng: &mut Rng) {
         if real != modelled {
             rep.disagree(case.clone(), format!("pages logged by the unit: engine {:?}, M-code model {:?} (files {:?}; model answer {m})", real, modelled, fidx), "commit-cover".into());
         } else { rep.count("cover:logged-sets-agree"); }
+        if unit_failed { continue; }
         // ---- oracle: every page whose content changed must have its current image in the WAL
         let mut uncovered_real: BTreeSet<(String, u64)> = BTreeSet::new();
         let mut keys: BTreeSet<(String, u64)> = pre.keys().cloned().collect();
@@ -288,6 +287,84 @@ fn run_cover(ctx: &Ctx, rep: &mut Report, indexed: bool, rng: &mut Rng) {
         }
     }
     turdb::verif_hooks::set_io_hook(None);
+}
+
+/// One group-commit BATCH that carries the same page twice: handle A (table u) becomes flush leader
+/// and is held before `take_pending`; B and C each insert a row into table t (same leaf page) and
+/// COMMIT - both enqueue behind the running flush and wait on the condition variable; A is released
+/// and writes the whole batch.  After all three COMMITs returned the directory is copied (kill
+/// model) and reopened: both rows must be there (the later image of the page must be the one replay
+/// ends with).
+fn run_batch_case(ctx: &Ctx, rep: &mut Report, model: &mut Model, k: usize) {
+    let case = "group-commit batch: A(u) leader held at take_pending; B(t row 1) and C(t row 2) commit into the same batch; A flushes".to_string();
+    rep.case(Some(&case));
+    rep.count("batch_same_page");
+    let dbh = Dbh::create(ctx, &format!("c38-batch-{k}"));
+    let db = dbh.db.as_ref().unwrap();
+    for s in ["PRAGMA wal=ON", "PRAGMA synchronous=FULL", "CREATE TABLE t (id INT PRIMARY KEY, v INT)", "CREATE TABLE u (id INT PRIMARY KEY, v INT)", "INSERT INTO t VALUES (0, 0)", "INSERT INTO u VALUES (0, 0)"] {
+        if let Out::Err(e) = dbh.exec(s) { rep.notes.push(format!("batch case setup failed: {s}: {e}")); return; }
+    }
+    let sched = Sched::new(3);
+    let mut handles = vec![];
+    let results: std::sync::Arc<std::sync::Mutex<Vec<Option<bool>>>> = std::sync::Arc::new(std::sync::Mutex::new(vec![None; 3]));
+    for tid in 0..3usize {
+        let h: Database = db.clone();
+        let results = results.clone();
+        handles.push(sched.spawn(tid, move || {
+            let _ = h.execute("BEGIN");
+            let _ = if tid == 0 { h.execute("INSERT INTO u VALUES (1, 1)") } else { h.execute(&format!("INSERT INTO t VALUES ({tid}, {tid})")) };
+            let ok = h.execute("COMMIT").is_ok();
+            results.lock().unwrap()[tid] = Some(ok);
+        }));
+    }
+    sched.settle(Duration::from_secs(10));
+    let mut note = String::new();
+    let r0 = run_until(&sched, 0, Some("gc.take_pending"), 200);
+    note.push_str(&format!("[A -> {r0:?}]"));
+    for tid in [1usize, 2] {
+        let r = run_until(&sched, tid, Some("gc.wait.cond"), 200);
+        // one more step: into the condition-variable wait (releases the queue mutex)
+        let r2 = if r == StepResult::Parked("gc.wait.cond") { sched.step(tid, Duration::from_millis(400)) } else { StepResult::NotRunnable };
+        note.push_str(&format!("[{} -> {r:?} -> {r2:?}]", if tid == 1 { "B" } else { "C" }));
+    }
+    let set_up = r0 == StepResult::Parked("gc.take_pending");
+    let ra = run_until(&sched, 0, None, 400);
+    note.push_str(&format!("[A flush -> {ra:?}]"));
+    for tid in [1usize, 2] {
+        let _ = sched.wait_landed(tid, Duration::from_secs(10));
+        let r = run_until(&sched, tid, None, 400);
+        note.push_str(&format!("[{tid} end -> {r:?}]"));
+    }
+    let finished = sched.all_finished();
+    sched.shutdown();
+    for h in handles { let _ = h.join(); }
+    let res = results.lock().unwrap().clone();
+    if !set_up { rep.disagree(case.clone(), format!("the scenario could not be set up: {note}"), "commit-batch-setup".into()); return; }
+    if !finished || res.iter().any(|r| *r != Some(true)) {
+        rep.oracle_fail(case.clone(), format!("not every COMMIT returned Ok: {res:?} {note}"), "commit:batch:commit-failed".into());
+        return;
+    }
+    let read = |d: &Database| -> Vec<i64> { match d.query("SELECT id FROM t") { Ok(rows) => { let mut v: Vec<i64> = rows.iter().filter_map(|r| r.get_int(0).ok()).collect(); v.sort(); v } Err(_) => vec![-1] } };
+    let live = read(db);
+    let crash_dir = format!("{}-crash", dbh.dir);
+    let _ = std::fs::remove_dir_all(&crash_dir);
+    if copy_dir(std::path::Path::new(&dbh.dir), std::path::Path::new(&crash_dir)).is_err() { return; }
+    let cd = crash_dir.clone();
+    let recovered = match guarded(move || Database::open(&cd)) { Ok(Ok(d2)) => { let r = read(&d2); drop(d2); r } Ok(Err(e)) => { rep.oracle_fail(case.clone(), format!("reopen failed: {e:#}"), "commit:batch:reopen-error".into()); let _ = std::fs::remove_dir_all(&crash_dir); return; } Err(p) => { rep.oracle_fail(case.clone(), format!("reopen panicked: {p}"), "commit:reopen-panic".into()); let _ = std::fs::remove_dir_all(&crash_dir); return; } };
+    let _ = std::fs::remove_dir_all(&crash_dir);
+    // model: B and C modify/capture/submit one after the other, then one flush of the queue
+    let m = model.ask("run 0 2 0 0 0 1 1 1 0");
+    let model_stale = m.contains("stale=1");
+    let expected = vec![0i64, 1, 2];
+    rep.sample(format!("{case} -> live {live:?} recovered {recovered:?} model {m} {note}"));
+    if live != expected {
+        rep.oracle_fail(case.clone(), format!("live table after the commits: {live:?}, expected {expected:?} {note}"), "commit:live-state-wrong".into());
+    } else if recovered != expected {
+        rep.oracle_fail(case.clone(), format!("after WAL recovery t holds {recovered:?}, expected {expected:?}: a committed row of the batch is lost ({note}; model {m})"), "commit:stale-image-after-recovery:same-page:one-batch".into());
+    }
+    if model_stale != (live == expected && recovered != expected) {
+        rep.disagree(case.clone(), format!("model says stale={model_stale} ({m}); real recovery gives {recovered:?}"), "commit-order-batch".into());
+    }
 }
 
 pub fn run(ctx: &Ctx) -> Report {
@@ -331,6 +408,7 @@ pub fn run(ctx: &Ctx) -> Report {
         let mut rng = Rng::new(ctx.seed ^ 0xC38);
         for indexed in [false, true] { run_cover(ctx, &mut rep, indexed, &mut rng); }
     }
+    for k in 0..(if ctx.thorough { 6 } else { 2 }) { run_batch_case(ctx, &mut rep, &mut model, k); }
     for (k, (n, same_page, plan)) in plans.iter().enumerate() {
         let case = format!("handles={n} same_page={same_page} plan={plan:?}");
         let has_pause = plan.iter().any(|(_, p)| *p);
